@@ -466,3 +466,32 @@ h!(c04_fillc_q, 12, fill_contiguous_h::<_, u8, 0>(V565::<3, 2>::new(), -2, 3, 3,
 h!(c04_fillc_t, 19, fill_contiguous_h::<_, u8, 0>(V565::<3, 2>::new(), -2, 3, 4, 17));
 //@ props=C04,C02,C08 inst="VModel<Rgb565,3,2>/u8, 64-bit helper variants" bounds="rectangle at any i32 position, width <= 200000, height <= 3, any stream length in u32 (O(1)-skipping colour source); all cfgs on the 3x2 framebuffer; unwind 9" timeout=1800 mem=10
 h!(c04_fillc_wide, 9, fill_contiguous_wide_h::<_, u8, 0>(V565::<3, 2>::new()));
+// ---- set_pixel on the built-in models (their framebuffer sizes and colour types)
+//@ props=C01,C05 pick=c01builtin:2 inst="ILI9341Rgb565/u8/Serial4Line" bounds="as c01_set_pixel_*; unwind 20 for the init sequence" timeout=600 mem=4
+h!(c01_sp_ili9341_565, 20, set_pixel_h::<_, u8, 0>(mipidsi::models::ILI9341Rgb565));
+//@ props=C01,C05 pick=c01builtin:2 inst="ILI9341Rgb666/u8/Parallel8Bit" bounds="same" timeout=600 mem=4
+h!(c01_sp_ili9341_666, 20, set_pixel_h::<_, u8, 1>(mipidsi::models::ILI9341Rgb666));
+//@ props=C01,C05 pick=c01builtin:2 inst="ILI9342CRgb565/u16/Parallel16Bit" bounds="same" timeout=600 mem=4
+h!(c01_sp_ili9342c_565, 20, set_pixel_h::<_, u16, 2>(mipidsi::models::ILI9342CRgb565));
+//@ props=C01,C05 pick=c01builtin:2 inst="ILI9342CRgb666/u8/Serial4Line" bounds="same" timeout=600 mem=4
+h!(c01_sp_ili9342c_666, 20, set_pixel_h::<_, u8, 0>(mipidsi::models::ILI9342CRgb666));
+//@ props=C01,C05 pick=c01builtin:2 inst="ILI9486Rgb565/u16/Parallel16Bit" bounds="same" timeout=600 mem=4
+h!(c01_sp_ili9486_565, 20, set_pixel_h::<_, u16, 2>(mipidsi::models::ILI9486Rgb565));
+//@ props=C01,C05 pick=c01builtin:2 inst="ILI9486Rgb666/u8/Serial4Line" bounds="same" timeout=600 mem=4
+h!(c01_sp_ili9486_666, 20, set_pixel_h::<_, u8, 0>(mipidsi::models::ILI9486Rgb666));
+//@ props=C01,C05 pick=c01builtin:2 inst="ILI9488Rgb565/u8/Parallel8Bit" bounds="same" timeout=600 mem=4
+h!(c01_sp_ili9488_565, 20, set_pixel_h::<_, u8, 1>(mipidsi::models::ILI9488Rgb565));
+//@ props=C01,C05 pick=c01builtin:2 inst="ILI9488Rgb666/u8/Serial4Line" bounds="same" timeout=600 mem=4
+h!(c01_sp_ili9488_666, 20, set_pixel_h::<_, u8, 0>(mipidsi::models::ILI9488Rgb666));
+//@ props=C01,C05 pick=c01builtin:2 inst="ST7735s/u8/Serial4Line" bounds="same" timeout=600 mem=4
+h!(c01_sp_st7735s, 20, set_pixel_h::<_, u8, 0>(mipidsi::models::ST7735s));
+//@ props=C01,C05 pick=c01builtin:2 inst="ST7789/u8/Serial4Line" bounds="same" timeout=600 mem=4
+h!(c01_sp_st7789, 20, set_pixel_h::<_, u8, 0>(mipidsi::models::ST7789));
+//@ props=C01,C05 pick=c01builtin:2 inst="ST7796/u16/Parallel16Bit" bounds="same" timeout=600 mem=4
+h!(c01_sp_st7796, 20, set_pixel_h::<_, u16, 2>(mipidsi::models::ST7796));
+//@ props=C01,C05 pick=c01builtin:2 inst="RM67162/u8/Serial4Line" bounds="same" timeout=600 mem=4
+h!(c01_sp_rm67162, 20, set_pixel_h::<_, u8, 0>(mipidsi::models::RM67162));
+//@ props=C01,C05 pick=c01builtin:2 inst="GC9107/u8/Parallel8Bit" bounds="same" timeout=600 mem=4
+h!(c01_sp_gc9107, 20, set_pixel_h::<_, u8, 1>(mipidsi::models::GC9107));
+//@ props=C01,C05 pick=c01builtin:2 inst="GC9A01/u8/Serial4Line" bounds="same" timeout=900 mem=4
+h!(c01_sp_gc9a01, 20, set_pixel_h::<_, u8, 0>(mipidsi::models::GC9A01));
